@@ -115,6 +115,8 @@ func main() {
 		runC11()
 	case "c01":
 		runC01()
+	case "c20":
+		runC20()
 	default:
 		fmt.Fprintln(os.Stderr, "unknown property", cmd)
 		os.Exit(2)
